@@ -15,6 +15,7 @@ EXPLANATION = (
 EXPLANATION_ADDED = "R1 also requires the requester's queue/oneshot failures to be mapped to Closed; R2 distinguishes an awaited hand-off to the bind queue from try_send; (R4) the bind queue is sized by bind_buffer_size."
 EXPLANATION_ADDED2 = " R2 also covers the Connect/in-use cell (shared id space) and the dispatcher's ignore_bind constants; R3 also requires a fresh request's state flag to start false."
 EXPLANATION = EXPLANATION + " Added while testing against seeded changes: " + EXPLANATION_ADDED + EXPLANATION_ADDED2
+EXPLANATION = EXPLANATION + ' Round 10: (R5) only the stream handle and the multiplexor handle report on the dropped-flows queue (no stale report closes a re-used id); R3 also requires Drop to answer an unreplied request with false; the Options setter stores its argument (R4).'
 ASSUMPTIONS = ["tokio oneshot delivers at most one value"]
 NOT_DECIDED = "independence of concurrent requests under all interleavings"
 BR = "penguin_mux::BindRequest"
@@ -194,6 +195,35 @@ def check(facts, rep, tier, cfg):
                                 "`reply(&self)` queues Finish/Reset and `Drop` unconditionally queues another Reset: an accepted "
                                 "(or explicitly rejected) bind is followed by a stray Reset on the same flow id, which cancels a "
                                 "later request that reuses the id (exactly-once / independence of answers)")
+    # necessity: a request that is dropped unanswered is answered `false` by Drop (otherwise the peer's request never resolves)
+    answered = False
+    for d in drops:
+        dtr = Tracer(facts, d)
+        rets = [x for x in range(len(d.blocks)) if d.term(x)["k"] == "Return"]
+        for bi, t in d.calls():
+            c = callee(t)
+            is_reply = c and any((c.get("res") or c["dp"]) == rb.dp for rb, _rtr, _s in reply_bodies)
+            is_reset = is_queue_send(t) and (ctors_in(dtr.operand(t["args"][1])) & {"new_reset"})
+            if not (is_reply or is_reset):
+                continue
+            if is_reply and len(t["args"]) > 1 and const_eval(dtr.operand(t["args"][1])) != 0:
+                continue
+            escapes = any(r in d.reachable_from(0, cut={bi}) for r in rets)
+            if escapes:
+                # allowed only when every escaping path took a branch on the request's own 'replied' state
+                def on_state(g):
+                    for x in walk(g.pred):
+                        if x.kind == "field" and x[3] == BR:
+                            return {True, False}
+                    return None
+                if not edge_literals_dominating(facts, d, dtr, bi, on_state):
+                    continue
+            answered = True
+            rep.ok("C15.R3", "drop-answers-unreplied", "%s (%s)" % (loc_str(t["loc"]), d.path), "an unanswered request is rejected when it is dropped")
+    if reply_bodies and not answered:
+        rep.bad("C15.R3", "drop-answers-unreplied", "%s" % (drops[0].path if drops else BR),
+                "a BindRequest that the application drops without replying sends nothing to the peer: the peer's request_bind is never resolved "
+                "(it must resolve exactly once, with `false` here) and its flow id stays occupied")
     if not drops:
         rep.ok("C15.R3", "no-drop-reply", "", "BindRequest has no Drop reply")
 
@@ -201,3 +231,4 @@ def check(facts, rep, tier, cfg):
     check_capacity_role(facts, rep, crate, "C15.R4", "BindRequest", "Options.bind_buffer_size", "bind-request queue")
     rep.rule("C15.R5", "only the stream handle (own id) and the multiplexor handle (0) report on the dropped-flows queue: the id of a resolved bind request is free for re-use and nothing closes it later")
     check_dropped_flow_senders(facts, rep, crate, "C15.R5")
+    check_option_setters(facts, rep, crate, "C15.R4", ['bind_buffer_size'])
